@@ -270,7 +270,7 @@ pub fn main(ctx: &Ctx) -> i32 {
                 Out::Class(c) => {
                     ctx.case(if c != "ok" || depth >= 8 { Some(h) } else { None });
                     ctx.count(&format!("outcome_{}", c), 1);
-                    if rng.chance(1, 40_000) {
+                    if ctx.want_sample() || rng.chance(1, 40_000) {
                         ctx.sample(json!({"class": class, "input": truncate(&input, 300), "outcome": c}));
                     }
                 }
